@@ -60,6 +60,11 @@ def main():
         src, status, how = agggen.struct_program(rng.fork("agg%d" % i))
         expected_status[len(jobs)] = status
         jobs.append(("aggregate-literal:" + how.split(":")[0], "run", [("m.pn", src)]))
+    # ill-typed programs: rejected on the unchanged tree; whatever a changed typer lets through must still be valid IR
+    for src in agggen.illtyped_aggregates():
+        jobs.append(("ill-typed-aggregate", "verify", [("m.pn", src)]))
+    for i in range(3000 if thorough else 200):
+        jobs.append(("faulted", "verify", [("m.pn", faultgen.faulted_program(rng.fork("fault%d" % i)))]))
     for i in range(600 if thorough else 60):
         jobs.append(("private-name-clash", "verify", faultgen.clash_modules(rng.fork("clash%d" % i))))
     for name, src in faultgen.corpus():
